@@ -46,8 +46,8 @@ OPEN_STATEMENTS = [
     'spin operators: proved for every number of sites (tolerance-free Model): sx = (s_plus + s_minus)/2 and '
     'sy = (s_plus - s_minus)/(2i) as operators (sx_sy_ladder), s_squared = S-.S+ + Sz.(Sz + 1) as the composition of the '
     'Model operators (s_squared_composition), sz and the number operator diagonal (sz_operator_diag, number_operator_diag); '
-    'not proved: the commutation relations [S+, S-] = 2 Sz, [Sz, S+-] = +-S+- and the explicit action of s_plus / s_minus on a '
-    'basis state; the special-operators stream checks the Spec formula of every operator on all basis states for 0..3 sites (0..4 in the thorough tier)',
+    's_plus / s_minus = the docstring sums (s_plus_s_minus_formula), [Sz, S+-] = +-S+- (sz_ladder_commutators); not proved: '
+    '[S+, S-] = 2 Sz and S^2 commuting with the ladder operators; the special-operators stream checks the Spec formula of every operator on all basis states for 0..3 sites (0..4 in the thorough tier)',
     'jw_get_ground_state_at_particle_number: float contract over eigsh / eigh only; observation outside the property: it raises '
     'ArpackError when the operator vanishes on a sector of dimension >= 3 (all-zero matrix given to eigsh); those inputs are skipped',
 ]
